@@ -2,7 +2,7 @@
    `exact <lemma>` and followed by Print Assumptions (audited by ./check on every run). *)
 From V.lib Require Import Base.
 From V.c14 Require Import C14Spec C14Model C14WordProofs C14ScanProofs C14ConvProofs C14WalkProofs C14StreamProofs.
-From V.c14 Require Import C14HevcSpec C14HevcModel C14HevcProofs.
+From V.c14 Require Import C14HevcSpec C14HevcModel C14HevcPackProofs C14HevcProofs.
 
 (* the word bit-trick of hasZeroByte is exactly "some byte of the word is zero", for every 8-byte
    word, whichever byte order the load uses *)
@@ -178,6 +178,21 @@ Theorem C14_hevc_transcriptions_agree : forall s : list N,
   (forall want stop, hevc_ExtractNalusOfTypeFromByteStream want s stop = hevc_extract_nalus_of_type want stop s).
 Proof. exact hevc_transcriptions_agree. Qed.
 Print Assumptions C14_hevc_transcriptions_agree.
+
+(* the tail of hevc.GetParameterSetsFromByteStream -- psData := make([]byte, totSize), three copy loops sharing
+   psData and pos, every set replaced by a sub-slice of psData -- returns exactly the sets when totSize is
+   their total length (that the scanning loop maintains totSize = total length, on every input, is part of
+   the proof of C14_hevc_transcriptions_agree) *)
+Theorem C14_hevc_repack_exact : forall v s p : list (list N),
+  hevc_repack (v, s, p) (sum3 (v, s, p)) = Ok (v, s, p).
+Proof. exact repack_exact. Qed.
+Print Assumptions C14_hevc_repack_exact.
+
+(* a totSize that is one short is not harmless: the last set cannot be re-sliced from psData *)
+Example C14_hevc_repack_ex :
+  hevc_repack ([[64;1;12]], [[66;1;1]; [66;1;2;3]], [[68;1]])%N 12 = Ok ([[64;1;12]], [[66;1;1]; [66;1;2;3]], [[68;1]])%N /\
+  hevc_repack ([[64;1;12]], [[66;1;1]; [66;1;2;3]], [[68;1]])%N 11 = Panic.
+Proof. vm_compute. split; reflexivity. Qed.
 
 (* nal_unit_type, bits 14..9 of the two-byte HEVC NAL unit header, is what hevc.GetNaluType computes from the
    first header byte alone *)
